@@ -20,6 +20,8 @@ for d in sorted(glob.glob("/verif/seeded/*")):
     if "suite_passes_with_patch" in r:
         conf = "yes" if (r.get("suite_passes_with_patch") and r.get("demo_fails_with_patch") and r.get("demo_passes_without_patch")) else "NO"
     verdict = '**yes**: ' + first if r.get('target_caught') else ('no' if r else 'not evaluated')
+    if r.get('target_caught') and m.get('tier_needed'):
+        verdict += " (" + m['tier_needed'] + " tier only)"
     if not r.get('target_caught') and m.get('assessment'):
         verdict = 'no - ' + m['assessment']
     rows.append(f"| {m['id']} | {title} | {conf} | {verdict} | {', '.join(others)} |")
